@@ -13,7 +13,7 @@ import (
 func init() {
 	Register(&Family{
 		Name:   "C10.selfunsub",
-		Props:  []string{"C10", "C03"},
+		Props:  []string{"C10", "C03", "C14"},
 		Weight: 1,
 		Gen: func(g *Gen) *Scn {
 			sc := &Scn{Family: "C10.selfunsub"}
@@ -79,6 +79,7 @@ func init() {
 				// the subscriber has left (or was never open): the subject must not keep it
 				if n := subject.CountObservers(); n != 0 || subject.HasObserver() {
 					e.Violate("C10", "observer-not-dropped", fmt.Sprintf("the subscriber unsubscribed itself, yet the subject still counts %d observer(s) (HasObserver=%v): %s", n, subject.HasObserver(), describe()))
+					e.Violate("C14", "subject-keeps-subscriber", fmt.Sprintf("the downstream side (a subscriber of the caller's) has terminated, but its upstream source, the subject, has not let go of it: %d observer(s) left: %s", n, describe()))
 					e.Violate("C03", "subject-teardown-not-run", fmt.Sprintf("the subscriber handed to Subscribe was unsubscribed, but the teardown the subject attached for it (removing it from the subject) never ran: %d observer(s) left: %s", n, describe()))
 					return
 				}
